@@ -3278,8 +3278,13 @@ class MOFCompiler:
                 raise OSError(
                     _format("No such file: {0!A}", filename))
             filename = rfilename
-        with open(filename, encoding='utf-8') as f:
-            mof = f.read()
+        try:
+            with open(filename, encoding='utf-8') as f:
+                mof = f.read()
+        except UnicodeDecodeError as exc:
+            raise MOFParseError(
+                msg=_format("MOF file {0!A} is not encoded in UTF-8: {1}",
+                            filename, exc))
 
         if os.path.abspath(filename) in self._active_files:
             raise MOFParseError(
